@@ -213,7 +213,7 @@ where
             // Large stacks: the format libraries recurse once per nesting level (rmp-serde up to
             // 1024 levels) and the scenario binaries are compiled without optimisation, so a
             // corrupted document that nests ~1000 arrays needs more than the default 2 MiB.
-            let builder = std::thread::Builder::new().name(format!("nusim-worker-{w}")).stack_size(512 << 20);
+            let builder = std::thread::Builder::new().name(format!("nusim-worker-{w}")).stack_size(256 << 20);
             handles.push(builder.spawn_scoped(s, move || {
                 let ctx = WorkerCtx { worker: w, watch };
                 let mut st = Stats {
